@@ -41,4 +41,4 @@ package config
 //@   noframe
 //@   requires nw != nil && nw.logger != nil
 //@   callsite set requires[C19] keep-last-good: len(errs) == 0
-//@   loop 1 step[C19] stored-reader-stays-readable: !rdconsumed(reader)
+//@   loop 1 step[C19] stored-reader-stays-readable: err == nil ==> has(nw.files.byPath, path) && !rdconsumed(nw.files.byPath[path])
